@@ -34,8 +34,8 @@ def flatAttrs (c : List Entity) : List (String × Attr) := c.flatMap (fun e => e
 theorem markFrom_zero (nm : String) (l : List OA) : markFrom 0 nm l = markFirst nm l := by
   simp [markFrom]
 
-theorem populate_succ (s : Schema) (f : Nat) (n : String) (l : List OA) :
-    populate s (f + 1) n l =
+theorem populateN_succ (s : Schema) (f : Nat) (n : String) (l : List OA) :
+    populateN s (f + 1) n l =
       match s.findE n with
       | none => l
       | some e =>
@@ -43,7 +43,7 @@ theorem populate_succ (s : Schema) (f : Nat) (n : String) (l : List OA) :
           match markFrom l.length a.name acc with
           | some acc' => if marksDerived a then acc' else acc
           | none => acc ++ [{ name := a.name, creator := n, deriver := a.kind == .derived }])
-          (e.supers.foldl (fun acc sup => populate s f sup acc) l) := rfl
+          (e.supers.foldl (fun acc sup => populateN s f sup acc) l) := rfl
 
 theorem attrs_fold_eq (n : String) (attrs : List Attr) (acc : List OA) :
     attrs.foldl (fun acc a =>
@@ -61,14 +61,14 @@ theorem attrs_fold_eq (n : String) (attrs : List Attr) (acc : List OA) :
     rfl
 
 theorem populate_chain {s : Schema} {n : String} {c : List Entity} (h : IsChain s n c) :
-    ∀ f, c.length ≤ f → populate s f n [] = (flatAttrs c).foldl popStep [] := by
+    ∀ f, c.length ≤ f → populateN s f n [] = (flatAttrs c).foldl popStep [] := by
   induction h with
   | root n e hE hs =>
     intro f hf
     cases f with
     | zero => simp at hf
     | succ f =>
-      rw [populate_succ, hE]
+      rw [populateN_succ, hE]
       simp only [hs, List.foldl_nil]
       rw [attrs_fold_eq]
       simp [flatAttrs, findE_name hE]
@@ -77,7 +77,7 @@ theorem populate_chain {s : Schema} {n : String} {c : List Entity} (h : IsChain 
     cases f with
     | zero => simp at hf
     | succ f =>
-      rw [populate_succ, hE]
+      rw [populateN_succ, hE]
       simp only [hs, List.foldl_cons, List.foldl_nil]
       rw [ih f (by simp at hf; omega), attrs_fold_eq]
       simp [flatAttrs, List.foldl_append, findE_name hE]
@@ -294,8 +294,8 @@ def DerivedCall (xs : List (String × Attr)) (x cr : String) : Prop :=
 
 theorem derivedCalls_chain {s : Schema} {n : String} {c : List Entity} (h : IsChain s n c)
     (hf : c.length ≤ fuelOf s) (x cr : String) :
-    (x, cr) ∈ derivedCalls s n ↔ DerivedCall (flatAttrs c) x cr := by
-  unfold derivedCalls
+    (x, cr) ∈ derivedCallsN s n ↔ DerivedCall (flatAttrs c) x cr := by
+  unfold derivedCallsN
   rw [populate_chain h _ hf]
   obtain ⟨hnd, hnames⟩ := fold_names (flatAttrs c) [] (by simp [names])
   rw [dedupOA_id [] _ (by simpa using hnd), List.nil_append]
@@ -616,16 +616,22 @@ theorem flatAttrs_append (c : List Entity) (e : Entity) :
     flatAttrs (c ++ [e]) = flatAttrs c ++ e.attrs.map (fun a => (e.name, a)) := by
   simp [flatAttrs]
 
+/-- on the entities of the chain the creator-aware search finds what the search by name finds -/
+def CallsAgree (s : Schema) (c : List Entity) : Prop := ∀ e ∈ c, derivedCalls s e.name = derivedCallsN s e.name
+
 theorem chain_state {s : Schema} {n : String} {c : List Entity} (h : IsChain s n c) :
-    ∀ f, c.length ≤ f → c.length ≤ fuelOf s → KeysNodup c → ChainState c (ctorNF s f n {}) := by
+    ∀ f, c.length ≤ f → c.length ≤ fuelOf s → KeysNodup c → CallsAgree s c → ChainState c (ctorNF s f n {}) := by
   induction h with
   | root n e hE hs =>
-    intro f hf hfu hk
+    intro f hf hfu hk hag
     cases f with
     | zero => simp at hf
     | succ f =>
       rw [ctorNF_succ, hE]
       simp only [hs, List.tail_nil, List.foldl_nil]
+      have hagn : derivedCalls s n = derivedCallsN s n := by
+        have := hag e (by simp); rwa [findE_name hE] at this
+      rw [hagn]
       have hall0 : ∀ j, j ∈ ({} : IState).head ↔ j < ({} : IState).objs.length := by intro j; simp
       have hsas : (ownSAs e).Nodup := by
         have : KeysNodup [e] := hk
@@ -636,18 +642,18 @@ theorem chain_state {s : Schema} {n : String} {c : List Entity} (h : IsChain s n
         have : (ownLoop e {} none).1.objs.map (fun o => keyOf o.sa) = ((ownLoop e {} none).1.objs.map (·.sa)).map keyOf := by
           simp [List.map_map, Function.comp_def]
         rw [this, hl.sas]; simpa [KeysNodup] using hk
-      obtain ⟨t1, t2, t3⟩ := applyDerived_head (derivedCalls s n) _ hl.hall hk'
+      obtain ⟨t1, t2, t3⟩ := applyDerived_head (derivedCallsN s n) _ hl.hall hk'
       refine ⟨?_, ?_, ?_⟩
       · intro j
         rw [t1]
-        have : (applyDerived (ownLoop e {} none).1 (ownLoop e {} none).1.head (derivedCalls s n)).objs.length =
+        have : (applyDerived (ownLoop e {} none).1 (ownLoop e {} none).1.head (derivedCallsN s n)).objs.length =
             (ownLoop e {} none).1.objs.length := by
           have := congrArg List.length t2; simpa using this
         rw [this]; exact hl.hall j
       · rw [t2, hl.sas]; simp
       · intro j a ha
         have ha' : saAt (ownLoop e {} none).1 j = some a := by
-          have : saAt (applyDerived (ownLoop e {} none).1 (ownLoop e {} none).1.head (derivedCalls s n)) j =
+          have : saAt (applyDerived (ownLoop e {} none).1 (ownLoop e {} none).1.head (derivedCallsN s n)) j =
               saAt (ownLoop e {} none).1 j := by
             simp only [saAt]
             have := congrArg (fun l => l[j]?) t2
@@ -659,7 +665,7 @@ theorem chain_state {s : Schema} {n : String} {c : List Entity} (h : IsChain s n
         simp only [Bool.false_eq_true, false_or]
         exact derivedCalls_chain (IsChain.root n e hE hs) hfu a.name a.owner
   | step n p e c hE hs hc ih =>
-    intro f hf hfu hk
+    intro f hf hfu hk hag
     cases f with
     | zero => simp at hf
     | succ f =>
@@ -669,9 +675,12 @@ theorem chain_state {s : Schema} {n : String} {c : List Entity} (h : IsChain s n
         exact (List.nodup_append.mp hk).1
       have hcl : c.length ≤ f := by simp at hf; omega
       have hcu : c.length ≤ fuelOf s := by simp at hfu; omega
-      have st1 := ih f hcl hcu hkc
+      have st1 := ih f hcl hcu hkc (fun e' he' => hag e' (List.mem_append.mpr (Or.inl he')))
       rw [ctorNF_succ, hE]
       simp only [hs, List.tail_cons, List.foldl_nil]
+      have hagn : derivedCalls s n = derivedCallsN s n := by
+        have := hag e (by simp); rwa [findE_name hE] at this
+      rw [hagn]
       generalize hst : ctorNF s f p {} = st at st1
       have hnd : (st.objs.map (·.sa) ++ ownSAs e).Nodup := by
         rw [st1.sas]
@@ -682,19 +691,19 @@ theorem chain_state {s : Schema} {n : String} {c : List Entity} (h : IsChain s n
         have : (ownLoop e st none).1.objs.map (fun o => keyOf o.sa) = ((ownLoop e st none).1.objs.map (·.sa)).map keyOf := by
           simp [List.map_map, Function.comp_def]
         rw [this, hl.sas, st1.sas]; simpa [KeysNodup] using hk
-      obtain ⟨t1, t2, t3⟩ := applyDerived_head (derivedCalls s n) _ hl.hall hk'
+      obtain ⟨t1, t2, t3⟩ := applyDerived_head (derivedCallsN s n) _ hl.hall hk'
       have hchain : IsChain s n (c ++ [e]) := IsChain.step n p e c hE hs hc
       refine ⟨?_, ?_, ?_⟩
       · intro j
         rw [t1]
-        have : (applyDerived (ownLoop e st none).1 (ownLoop e st none).1.head (derivedCalls s n)).objs.length =
+        have : (applyDerived (ownLoop e st none).1 (ownLoop e st none).1.head (derivedCallsN s n)).objs.length =
             (ownLoop e st none).1.objs.length := by
           have := congrArg List.length t2; simpa using this
         rw [this]; exact hl.hall j
       · rw [t2, hl.sas, st1.sas]; simp
       · intro j a ha
         have ha' : saAt (ownLoop e st none).1 j = some a := by
-          have : saAt (applyDerived (ownLoop e st none).1 (ownLoop e st none).1.head (derivedCalls s n)) j =
+          have : saAt (applyDerived (ownLoop e st none).1 (ownLoop e st none).1.head (derivedCallsN s n)) j =
               saAt (ownLoop e st none).1 j := by
             simp only [saAt]
             have := congrArg (fun l => l[j]?) t2
